@@ -1,7 +1,18 @@
 (* Reader.v -- model of lib/lha_reader.c over the filesystem model.
-   While a decoder is open the basic reader's state lives inside it (the
-   decoder's callback data is the LHABasicReader), so the authoritative
-   breader is [reader_br]. *)
+
+   Pointers.  reader->reader (the LHABasicReader) is one object shared by the
+   LHAReader and, as callback data, by every decoder created for the current
+   file.  [rd_br] is that object.  A decoder value carries a copy ([d_cb]) that
+   is only meaningful during a call: every use of a decoder stores [rd_br]
+   into it first ([load_br]) and writes the copy back afterwards.
+
+   reader->decoder and reader->inner_decoder are two pointers that usually
+   name the same object (plain file), or the pass-through decoder and the
+   decoder inside it (MacOS file); calling the API in unintended orders
+   (check after read, extract twice, ...) re-opens decoders without closing
+   the old ones and the two pointers then name unrelated objects.  [rd_decoder]
+   is the object reader->decoder points to; [rd_inner] says what
+   reader->inner_decoder points to relative to it. *)
 From Lhasa Require Import Base DecBase Loop Generated InputStream Header BasicReader AnyDecoder Decoder
   MacBinary Fs FsRun.
 Local Open Scope N_scope.
@@ -9,48 +20,50 @@ Local Open Scope N_scope.
 Inductive curr_type : Type := CT_START | CT_NORMAL | CT_FAKE_DIR | CT_DEFERRED_SYMLINK | CT_EOF.
 Inductive dir_policy : Type := DIR_PLAIN | DIR_END_OF_DIR | DIR_END_OF_FILE.
 
-Definition odec := @decoder idec mb_state.     (* the MacBinary pass-through; its callback data is the inner decoder *)
+Definition odec := @decoder mb_world mb_state.     (* the MacBinary pass-through decoder *)
 
-(* reader->decoder / reader->inner_decoder *)
-Inductive dec_slot : Type :=
-| D_none
-| D_plain (mr bs : N) (d : idec)               (* decoder == inner_decoder *)
-| D_mac (mr bs : N) (o : odec)                 (* decoder = pass-through around inner_decoder *)
-| D_inner_only (mr bs : N) (d : idec).         (* decoder == NULL, inner_decoder != NULL (pass-through failed) *)
+(* the object reader->decoder points to *)
+Inductive dec_obj : Type :=
+| DO_plain (d : idec)
+| DO_mac (o : odec).
+
+(* reader->inner_decoder *)
+Inductive inner_ref : Type :=
+| IR_null
+| IR_same                 (* == reader->decoder (plain), or the decoder inside the pass-through reader->decoder *)
+| IR_own (d : idec).      (* a decoder that reader->decoder does not reach *)
 
 Record reader := {
-  rd_br : breader;                 (* valid when rd_dec = D_none *)
+  rd_br : breader;                 (* *reader->reader *)
   rd_curr : option header;
   rd_type : curr_type;
-  rd_dec : dec_slot;
+  rd_decoder : option dec_obj;
+  rd_inner : inner_ref;
   rd_policy : dir_policy;
   rd_dir_stack : list header;
-  rd_deferred : list header
+  rd_deferred : list header;
+  rd_linked : bool                 (* curr_file is a member of dir_stack / deferred_symlinks: its _next is in use *)
 }.
 
-Definition reader_br (r : reader) : breader :=
-  match rd_dec r with
-  | D_none => rd_br r
-  | D_plain _ _ d => d_cb d
-  | D_mac _ _ o => d_cb (d_cb o)
-  | D_inner_only _ _ d => d_cb d
-  end.
+(* the basic reader as the API user sees it *)
+Definition reader_br (r : reader) : breader := rd_br r.
 
 Definition lha_reader_new (st : istream) : reader :=
-  {| rd_br := lha_basic_reader_new st; rd_curr := None; rd_type := CT_START; rd_dec := D_none;
-     rd_policy := DIR_END_OF_DIR; rd_dir_stack := []; rd_deferred := [] |}.
+  {| rd_br := lha_basic_reader_new st; rd_curr := None; rd_type := CT_START; rd_decoder := None; rd_inner := IR_null;
+     rd_policy := DIR_END_OF_DIR; rd_dir_stack := []; rd_deferred := []; rd_linked := false |}.
 
 Definition lha_reader_set_dir_policy (r : reader) (p : dir_policy) : reader :=
-  {| rd_br := rd_br r; rd_curr := rd_curr r; rd_type := rd_type r; rd_dec := rd_dec r;
-     rd_policy := p; rd_dir_stack := rd_dir_stack r; rd_deferred := rd_deferred r |}.
+  {| rd_br := rd_br r; rd_curr := rd_curr r; rd_type := rd_type r; rd_decoder := rd_decoder r; rd_inner := rd_inner r;
+     rd_policy := p; rd_dir_stack := rd_dir_stack r; rd_deferred := rd_deferred r; rd_linked := rd_linked r |}.
 
 Definition close_decoder (r : reader) : reader :=
-  {| rd_br := reader_br r; rd_curr := rd_curr r; rd_type := rd_type r; rd_dec := D_none;
-     rd_policy := rd_policy r; rd_dir_stack := rd_dir_stack r; rd_deferred := rd_deferred r |}.
+  {| rd_br := rd_br r; rd_curr := rd_curr r; rd_type := rd_type r; rd_decoder := None; rd_inner := IR_null;
+     rd_policy := rd_policy r; rd_dir_stack := rd_dir_stack r; rd_deferred := rd_deferred r; rd_linked := rd_linked r |}.
 
-Definition with_dec (r : reader) (d : dec_slot) : reader :=
-  {| rd_br := rd_br r; rd_curr := rd_curr r; rd_type := rd_type r; rd_dec := d;
-     rd_policy := rd_policy r; rd_dir_stack := rd_dir_stack r; rd_deferred := rd_deferred r |}.
+(* new values of reader->reader's contents, reader->decoder, reader->inner_decoder *)
+Definition set_decoders (r : reader) (br : breader) (d : option dec_obj) (i : inner_ref) : reader :=
+  {| rd_br := br; rd_curr := rd_curr r; rd_type := rd_type r; rd_decoder := d; rd_inner := i;
+     rd_policy := rd_policy r; rd_dir_stack := rd_dir_stack r; rd_deferred := rd_deferred r; rd_linked := rd_linked r |}.
 
 (* strncmp(a, b, strlen(b)) == 0 for C strings: b is a prefix of a *)
 Fixpoint is_prefix (b a : list N) : bool :=
@@ -62,6 +75,20 @@ Fixpoint is_prefix (b a : list N) : bool :=
 
 Definition is_dir_method (h : header) : bool := method_is h COMPRESS_TYPE_DIR.
 
+(* the callback data pointer of a decoder: store the basic reader / read it back *)
+Definition set_cb {st : Type} (d : @decoder breader st) (b : breader) : @decoder breader st :=
+  {| d_inner := d_inner d; d_cb := b; d_outbuf := d_outbuf d; d_stream_pos := d_stream_pos d;
+     d_stream_length := d_stream_length d; d_failed := d_failed d; d_crc := d_crc d;
+     d_monitor := d_monitor d; d_last_block := d_last_block d; d_total_blocks := d_total_blocks d |}.
+Definition load_br (d : idec) (b : breader) : idec :=
+  {| id_max_read := id_max_read d; id_block_size := id_block_size d; id_dec := set_cb (id_dec d) b |}.
+Definition idec_br (d : idec) : breader := d_cb (id_dec d).
+
+Definition set_world (o : odec) (w : mb_world) : odec :=
+  {| d_inner := d_inner o; d_cb := w; d_outbuf := d_outbuf o; d_stream_pos := d_stream_pos o;
+     d_stream_length := d_stream_length o; d_failed := d_failed o; d_crc := d_crc o;
+     d_monitor := d_monitor o; d_last_block := d_last_block o; d_total_blocks := d_total_blocks o |}.
+
 Section Reader.
   Variable mktime : N -> N -> N -> N -> Z -> N -> N.
   Variable junk : N.
@@ -71,7 +98,7 @@ Section Reader.
     match rd_dir_stack r with
     | [] => Ok false
     | top :: _ =>
-      match br_curr (reader_br r) with
+      match br_curr (rd_br r) with
       | None => Ok true
       | Some input =>
         match rd_policy r with
@@ -96,100 +123,126 @@ Section Reader.
     match rd_type r with
     | CT_EOF => Ok (None, r)
     | _ =>
-      br1 <- (match rd_type r with
-              | CT_START | CT_NORMAL =>
-                '(_, br') <- lha_basic_reader_next_file mktime (rd_br r) ;; Ok br'
-              | _ => Ok (rd_br r)
-              end) ;;
-      let r1 := {| rd_br := br1; rd_curr := rd_curr r; rd_type := rd_type r; rd_dec := D_none;
-                   rd_policy := rd_policy r; rd_dir_stack := rd_dir_stack r; rd_deferred := rd_deferred r |} in
+      (* a new current file of the basic reader is not a member of any list *)
+      '(br1, linked) <- (match rd_type r with
+                         | CT_START | CT_NORMAL =>
+                           '(_, br') <- lha_basic_reader_next_file mktime (rd_br r) ;; Ok (br', false)
+                         | _ => Ok (rd_br r, rd_linked r)
+                         end) ;;
+      let r1 := {| rd_br := br1; rd_curr := rd_curr r; rd_type := rd_type r; rd_decoder := None; rd_inner := IR_null;
+                   rd_policy := rd_policy r; rd_dir_stack := rd_dir_stack r; rd_deferred := rd_deferred r;
+                   rd_linked := linked |} in
       pop <- end_of_top_dir r1 ;;
       let r2 :=
         if pop then
           match rd_dir_stack r1 with
           | top :: rest =>
-            {| rd_br := br1; rd_curr := Some top; rd_type := CT_FAKE_DIR; rd_dec := D_none;
-               rd_policy := rd_policy r1; rd_dir_stack := rest; rd_deferred := rd_deferred r1 |}
+            {| rd_br := br1; rd_curr := Some top; rd_type := CT_FAKE_DIR; rd_decoder := None; rd_inner := IR_null;
+               rd_policy := rd_policy r1; rd_dir_stack := rest; rd_deferred := rd_deferred r1; rd_linked := linked |}
           | [] => r1
           end
         else
-          {| rd_br := br1; rd_curr := br_curr br1; rd_type := CT_NORMAL; rd_dec := D_none;
-             rd_policy := rd_policy r1; rd_dir_stack := rd_dir_stack r1; rd_deferred := rd_deferred r1 |} in
+          {| rd_br := br1; rd_curr := br_curr br1; rd_type := CT_NORMAL; rd_decoder := None; rd_inner := IR_null;
+             rd_policy := rd_policy r1; rd_dir_stack := rd_dir_stack r1; rd_deferred := rd_deferred r1;
+             rd_linked := linked |} in
       match rd_curr r2 with
       | Some h => Ok (Some h, r2)
       | None =>
         match rd_deferred r2 with
         | l :: rest =>
-          Ok (Some l, {| rd_br := br1; rd_curr := Some l; rd_type := CT_DEFERRED_SYMLINK; rd_dec := D_none;
-                         rd_policy := rd_policy r2; rd_dir_stack := rd_dir_stack r2; rd_deferred := rest |})
+          Ok (Some l, {| rd_br := br1; rd_curr := Some l; rd_type := CT_DEFERRED_SYMLINK; rd_decoder := None;
+                         rd_inner := IR_null; rd_policy := rd_policy r2; rd_dir_stack := rd_dir_stack r2;
+                         rd_deferred := rest; rd_linked := linked |})
         | [] =>
-          Ok (None, {| rd_br := br1; rd_curr := None; rd_type := CT_EOF; rd_dec := D_none;
-                       rd_policy := rd_policy r2; rd_dir_stack := rd_dir_stack r2; rd_deferred := [] |})
+          Ok (None, {| rd_br := br1; rd_curr := None; rd_type := CT_EOF; rd_decoder := None; rd_inner := IR_null;
+                       rd_policy := rd_policy r2; rd_dir_stack := rd_dir_stack r2; rd_deferred := [];
+                       rd_linked := linked |})
         end
       end
     end.
 
-  (* lha_basic_reader_decode + open_decoder.  monitor: a progress callback was given. *)
+  (* lha_basic_reader_decode: NULL without a current file or for an unknown method *)
+  Definition lha_basic_reader_decode (br : breader) : outcome (option idec) :=
+    match br_curr br with
+    | None => Ok None
+    | Some h =>
+      match lha_decoder_for_name (cstr (h_method h)) with
+      | None => Ok None
+      | Some dt =>
+        s0 <- dt_init dt ;;
+        Ok (Some {| id_max_read := dt_max_read dt; id_block_size := dt_block_size dt;
+                    id_dec := lha_decoder_new s0 br (h_length h) |})
+      end
+    end.
+
+  (* open_decoder.  monitor: a progress callback was given.
+     Whatever reader->decoder / reader->inner_decoder pointed to before is
+     overwritten without being freed. *)
   Definition open_decoder (r : reader) (monitor : bool) : outcome (bool * list (N * N) * reader) :=
     match rd_type r with
     | CT_NORMAL =>
-      let br := reader_br r in
-      match br_curr br with
-      | None => Ok (false, [], r)
-      | Some h =>
-        match lha_decoder_for_name (cstr (h_method h)) with
-        | None => Ok (false, [], with_dec (close_decoder r) D_none)
-        | Some dt =>
-          s0 <- dt_init dt ;;
-          let d0 : idec := lha_decoder_new s0 br (h_length h) in
-          let '(d1, ev) := if monitor then lha_decoder_monitor (dt_block_size dt) d0 else (d0, []) in
-          match rd_curr r with
-          | None => Fault 1402
-          | Some ch =>
-            if h_os_type ch =? OS_TYPE_MACOS then
-              '(ms, d2) <- macbinary_init junk (dt_max_read dt) (dt_block_size dt) d1 ch ;;
-              match ms with
-              | None => Ok (false, ev, with_dec r (D_inner_only (dt_max_read dt) (dt_block_size dt) d2))
-              | Some m =>
-                let o : odec := lha_decoder_new m d2 (h_length ch) in
-                Ok (true, ev, with_dec r (D_mac (dt_max_read dt) (dt_block_size dt) o))
-              end
-            else Ok (true, ev, with_dec r (D_plain (dt_max_read dt) (dt_block_size dt) d1))
-          end
+      inner <- lha_basic_reader_decode (rd_br r) ;;
+      match inner with
+      | None => Ok (false, [], set_decoders r (rd_br r) (rd_decoder r) IR_null)
+      | Some d0 =>
+        let '(d1, ev) := if monitor
+                         then (let '(d', e) := lha_decoder_monitor (id_block_size d0) (id_dec d0) in (with_dec d0 d', e))
+                         else (d0, []) in
+        match rd_curr r with
+        | None => Fault 1402
+        | Some ch =>
+          if h_os_type ch =? OS_TYPE_MACOS then
+            (* lha_macbinary_passthrough(reader->inner_decoder, reader->curr_file) *)
+            '(ms, w) <- macbinary_init junk {| mw_dec := d1; mw_ev := [] |} ch ;;
+            let d2 := mw_dec w in
+            match ms with
+            | None =>                            (* reader->decoder = NULL *)
+              Ok (false, ev ++ mw_ev w, set_decoders r (idec_br d2) None (IR_own d2))
+            | Some m =>
+              let o : odec := lha_decoder_new m {| mw_dec := d2; mw_ev := [] |} (h_length ch) in
+              Ok (true, ev ++ mw_ev w, set_decoders r (idec_br d2) (Some (DO_mac o)) IR_same)
+            end
+          else Ok (true, ev, set_decoders r (rd_br r) (Some (DO_plain d1)) IR_same)
         end
       end
     | _ => Ok (false, [], r)
     end.
 
   (* lha_decoder_read(reader->decoder, ...) *)
-  Definition slot_read (r : reader) (n : N) : outcome (list N * list (N * N) * reader) :=
-    match rd_dec r with
-    | D_plain mr bs d =>
-      '(o, ev, d') <- inner_read junk mr bs d n ;; Ok (o, ev, with_dec r (D_plain mr bs d'))
-    | D_mac mr bs o =>
-      '(out, _, o') <- lha_decoder_read (macbinary_read junk mr bs) macbinary_max_read macbinary_block_size o n ;;
-      Ok (out, [], with_dec r (D_mac mr bs o'))
-    | _ => Ok ([], [], r)
+  Definition decoder_read (r : reader) (n : N) : outcome (list N * list (N * N) * reader) :=
+    match rd_decoder r with
+    | Some (DO_plain d) =>
+      '(o, ev, d') <- inner_read junk (load_br d (rd_br r)) n ;;
+      Ok (o, ev, set_decoders r (idec_br d') (Some (DO_plain d')) (rd_inner r))
+    | Some (DO_mac o) =>
+      let w := {| mw_dec := load_br (mw_dec (d_cb o)) (rd_br r); mw_ev := [] |} in
+      '(out, _, o') <- lha_decoder_read (macbinary_read junk) macbinary_max_read macbinary_block_size (set_world o w) n ;;
+      Ok (out, mw_ev (d_cb o'), set_decoders r (idec_br (mw_dec (d_cb o'))) (Some (DO_mac o')) (rd_inner r))
+    | None => Fault 1412                         (* lha_decoder_read(NULL, ...) *)
     end.
-
-  Definition has_decoder (r : reader) : bool :=
-    match rd_dec r with D_plain _ _ _ | D_mac _ _ _ => true | _ => false end.
 
   (* lha_reader_read *)
   Definition lha_reader_read (r : reader) (n : N) : outcome (list N * list (N * N) * reader) :=
-    if has_decoder r then slot_read r n
-    else
+    match rd_decoder r with
+    | Some _ => decoder_read r n
+    | None =>
       '(ok, ev, r1) <- open_decoder r false ;;
-      if ok then '(o, ev2, r2) <- slot_read r1 n ;; Ok (o, ev ++ ev2, r2)
-      else Ok ([], ev, r1).
+      if ok then '(o, ev2, r2) <- decoder_read r1 n ;; Ok (o, ev ++ ev2, r2)
+      else Ok ([], ev, r1)
+    end.
 
-  (* the inner decoder's length and CRC *)
+  (* lha_decoder_get_length / lha_decoder_get_crc of reader->inner_decoder *)
   Definition inner_len_crc (r : reader) : option (N * N) :=
-    match rd_dec r with
-    | D_plain _ _ d => Some (lha_decoder_get_length d, lha_decoder_get_crc d)
-    | D_mac _ _ o => Some (lha_decoder_get_length (d_cb o), lha_decoder_get_crc (d_cb o))
-    | D_inner_only _ _ d => Some (lha_decoder_get_length d, lha_decoder_get_crc d)
-    | D_none => None
+    match rd_inner r with
+    | IR_null => None
+    | IR_own d => Some (lha_decoder_get_length (id_dec d), lha_decoder_get_crc (id_dec d))
+    | IR_same =>
+      match rd_decoder r with
+      | Some (DO_plain d) => Some (lha_decoder_get_length (id_dec d), lha_decoder_get_crc (id_dec d))
+      | Some (DO_mac o) =>
+        let d := mw_dec (d_cb o) in Some (lha_decoder_get_length (id_dec d), lha_decoder_get_crc (id_dec d))
+      | None => None
+      end
     end.
 
   (* do_decode: the output file, if any, is an open handle of the filesystem *)
@@ -221,6 +274,7 @@ Section Reader.
                                               fs_umask := 0; fs_trace := [] |} None ;;
         Ok (res, ev ++ ev2, r2)
       else Ok (false, ev, r1)
+    | CT_NORMAL, None => Fault 1413             (* reader->curr_file->compress_method with curr_file == NULL *)
     | _, _ => Ok (false, [], r)
     end.
 
@@ -232,6 +286,13 @@ Section Reader.
     let '(_, f1) := set_timestamps_from_header f path h in
     let f2 := if have_extra h FILE_UNIX_UID_GID then snd (fs_chown f1 path) else f1 in
     if have_extra h FILE_UNIX_PERMS then fs_chmod f2 path (h_unix_perms h) else (true, f2).
+
+  (* header->_next = <list>: the field must not be in use already (the list would become cyclic) *)
+  Definition link_curr (site : N) (r : reader) (stack deferred : list header) : outcome reader :=
+    if rd_linked r then Fault site else
+    Ok {| rd_br := rd_br r; rd_curr := rd_curr r; rd_type := rd_type r; rd_decoder := rd_decoder r;
+          rd_inner := rd_inner r; rd_policy := rd_policy r; rd_dir_stack := stack; rd_deferred := deferred;
+          rd_linked := true |}.
 
   Definition extract_directory (r : reader) (f : fs) (path : option (list N)) : outcome (bool * reader * fs) :=
     match rd_curr r with
@@ -247,10 +308,7 @@ Section Reader.
         else
           match rd_policy r with
           | DIR_PLAIN => let '(_, f2) := set_directory_metadata f1 h p in Ok (true, r, f2)
-          | _ =>
-            Ok (true, {| rd_br := rd_br r; rd_curr := rd_curr r; rd_type := rd_type r; rd_dec := rd_dec r;
-                         rd_policy := rd_policy r; rd_dir_stack := h :: rd_dir_stack r;
-                         rd_deferred := rd_deferred r |}, f1)
+          | _ => r' <- link_curr 1411 r (h :: rd_dir_stack r) (rd_deferred r) ;; Ok (true, r', f1)
           end
       end
     end.
@@ -302,9 +360,8 @@ Section Reader.
       match rd_curr r with
       | None => Fault 1407
       | Some h =>
-        Ok (true, {| rd_br := rd_br r; rd_curr := rd_curr r; rd_type := rd_type r; rd_dec := rd_dec r;
-                     rd_policy := rd_policy r; rd_dir_stack := rd_dir_stack r;
-                     rd_deferred := insert_deferred (rd_deferred r) h |}, f1)
+        r' <- link_curr 1414 r (rd_dir_stack r) (insert_deferred (rd_deferred r) h) ;;
+        Ok (true, r', f1)
       end
     end.
 
@@ -333,6 +390,7 @@ Section Reader.
         | Some _ => '(ok, r1, f1) <- extract_symlink r f filename ;; Ok (ok, [], r1, f1)
         | None => '(ok, r1, f1) <- extract_directory r f filename ;; Ok (ok, [], r1, f1)
         end
+    | CT_NORMAL, None => Fault 1415             (* reader->curr_file->compress_method with curr_file == NULL *)
     | CT_FAKE_DIR, Some h =>
       match (match filename with Some n => Some n | None => h_path h end) with
       | None => Fault 1410
@@ -345,3 +403,37 @@ Section Reader.
   Definition lha_reader_current_is_fake (r : reader) : bool :=
     match rd_type r with CT_FAKE_DIR | CT_DEFERRED_SYMLINK => true | _ => false end.
 End Reader.
+
+(* ---- memory: decoders lost by open_decoder ----
+   open_decoder assigns reader->inner_decoder and reader->decoder without
+   looking at what they point to; close_decoder (lha_reader_next_file,
+   lha_reader_free) frees only what they point to then.  A decoder that one of
+   them still points to when open_decoder allocates a new one is never freed.
+   These predicates say whether the next API call does that; the differential
+   test compares them with LeakSanitizer's verdict on the C. *)
+Definition has_live_decoder (r : reader) : bool :=
+  match rd_decoder r, rd_inner r with None, IR_null => false | _, _ => true end.
+
+(* open_decoder, called now, gets a decoder from lha_basic_reader_decode *)
+Definition open_allocates (r : reader) : bool :=
+  match rd_type r with
+  | CT_NORMAL =>
+    match br_curr (rd_br r) with
+    | Some h => match lha_decoder_for_name (cstr (h_method h)) with Some _ => true | None => false end
+    | None => false
+    end
+  | _ => false
+  end.
+
+Definition read_loses_decoder (r : reader) : bool :=
+  match rd_decoder r with
+  | None => open_allocates r && has_live_decoder r
+  | Some _ => false
+  end.
+
+(* lha_reader_check, and lha_reader_extract of a regular file *)
+Definition check_loses_decoder (r : reader) : bool :=
+  match rd_type r, rd_curr r with
+  | CT_NORMAL, Some h => negb (is_dir_method h) && open_allocates r && has_live_decoder r
+  | _, _ => false
+  end.
